@@ -15,7 +15,7 @@ from .. import observe as ob
 from .c07 import corrupt
 
 PROP = "C08"
-RUNS = {"quick": 5000, "thorough": 400000}
+RUNS = {"quick": 5000, "thorough": 90000}
 WALL = {"quick": 280, "thorough": 3500}
 RULE = ("one run = document + scheduled delivery + history with failing calls; full observation "
         "compared around every call that raised; distinct = distinct (state digest, failing op) pairs")
